@@ -10,12 +10,15 @@ structure SSt where
   lt : Nat → Nat → Bool
   pool : List (SSet Nat)
   tr : Bool := false          -- does the set type claim to be trivially relocatable?
+  mods : List Nat := []       -- cmp=mix: the state of the comparator OBJECT of each set (it compares `v % m`); travels with
+                              -- swap / copy / move assignment like the comparator object of a std::set
 
 def cmpFor : String → Option (Nat → Nat → Bool)
   | "less" => some fun a b => a < b
   | "greater" => some fun a b => a > b
   | "mod" => some fun a b => a % 5 < b % 5
   | "stateful" => some fun a b => a % 7 < b % 7
+  | "mix" => some fun a b => a % 7 < b % 7
   | _ => none
 
 def parseSetCfg (toks : List String) : Option SSt := do
@@ -24,10 +27,25 @@ def parseSetCfg (toks : List String) : Option SSt := do
   let lt ← cmpFor ((kv toks "cmp").getD "less")
   let pool := ((kv toks "pool").bind String.toNat?).getD 3
   let tr := (kv toks "tr").getD "0" == "1"
-  pure { small := small, n := n, lt := lt, pool := List.replicate pool ⟨[], []⟩, tr := tr }
+  let mods := if (kv toks "cmp").getD "less" == "mix" then (List.range pool).map (fun c => 7 + 3 * c) else []
+  pure { small := small, n := n, lt := lt, pool := List.replicate pool ⟨[], []⟩, tr := tr, mods := mods }
 
 def SSt.get (s : SSt) (c : Nat) : SSet Nat := s.pool[c]?.getD ⟨[], []⟩
 def SSt.put (s : SSt) (c : Nat) (x : SSet Nat) : SSt := { s with pool := s.pool.set c x }
+/-- the comparator object of set `c` -/
+def SSt.ltOf (s : SSt) (c : Nat) : Nat → Nat → Bool :=
+  match s.mods[c]? with
+  | some m => fun a b => a % m < b % m
+  | none => s.lt
+/-- set `c` receives (a copy of) the comparator object of set `d` -/
+def SSt.cmpFrom (s : SSt) (c d : Nat) : SSt :=
+  match s.mods[d]? with
+  | some m => { s with mods := s.mods.set c m }
+  | none => s
+def SSt.cmpSwap (s : SSt) (c d : Nat) : SSt :=
+  match s.mods[c]?, s.mods[d]? with
+  | some mc, some md => { s with mods := (s.mods.set c md).set d mc }
+  | _, _ => s
 
 /-- elements in iteration order -/
 def SSt.elemsOf (s : SSt) (x : SSet Nat) : List Nat := if s.small then x.elems else x.set
@@ -51,11 +69,12 @@ def isPerm (a b : List Nat) : Bool := a.length == b.length && a.all (fun x => a.
 /-- one operation: (result token, returned value, comparator calls if modelled, new state) -/
 def setStep (s : SSt) (toks : List String) : String × String × Option Nat × SSt :=
   let nat (t : String) := t.toNat?.getD 0
-  let lt := s.lt
   match toks with
-  | ["new"] => ("ok", "live=0", some 0, { s with pool := s.pool.map fun _ => ⟨[], []⟩ })
+  | ["new"] => ("ok", "live=0", some 0, { s with pool := s.pool.map (fun _ => ⟨[], []⟩),
+                                                  mods := (List.range s.mods.length).map (fun c => 7 + 3 * c) })
   | op :: c :: rest =>
     let c := nat c
+    let lt := s.ltOf c
     let x := s.get c
     let es := s.elemsOf x
     let sz := es.length
@@ -98,26 +117,25 @@ def setStep (s : SSt) (toks : List String) : String × String × Option Nat × S
       | "xfer", [d, v] => if c == nat d then skip else
           let o := s.get (nat d)
           let oes := s.elemsOf o
-          match (o.find lt (nat v)).1 with
+          match (o.find (s.ltOf (nat d)) (nat v)).1 with
           | none => ("ok", "absent", none, s)
           | some i =>
             let node := oes[i]?.getD 0
             let o' := o.eraseIdx i
             let r := x.insert lt s.n node
             if r.2.2.1 then ("ok", "1:empty", none, (s.put c r.1).put (nat d) o')
-            else ("ok", s!"0:{node}", none, (s.put c r.1).put (nat d) (o'.insert lt s.n node).1)
+            else ("ok", s!"0:{node}", none, (s.put c r.1).put (nat d) (o'.insert (s.ltOf (nat d)) s.n node).1)
       | "extp", [p] => if sz == 0 then skip else
           let i := nat p % sz
           ("ok", valAt es i, some 0, s.put c (x.eraseIdx i))
-      | "swp", [d] => if c == nat d then skip else ("ok", "-", some 0, (s.put c (s.get (nat d))).put (nat d) x)
-      | "cpy", [d] => ("ok", "-", some 0, s.put c (s.get (nat d)))
-      | "mov", [d] => if c == nat d then skip else ("ok", "-", some 0, (s.put c (s.get (nat d))).put (nat d) ⟨[], []⟩)
+      | "swp", [d] => if c == nat d then skip else ("ok", "-", some 0, ((s.put c (s.get (nat d))).put (nat d) x).cmpSwap c (nat d))
+      | "cpy", [d] => ("ok", "-", some 0, (s.put c (s.get (nat d))).cmpFrom c (nat d))
+      | "mov", [d] => if c == nat d then skip else ("ok", "-", some 0, ((s.put c (s.get (nat d))).put (nat d) ⟨[], []⟩).cmpFrom c (nat d))
       | "cmp", [d] =>
           let o := s.get (nat d)
           let oes := s.elemsOf o
           let eq := if !x.isSmall && !o.isSmall then es == oes else isPerm es oes
-          let sortBy (l : List Nat) := insertAll lt [] l
-          let l := lexLt (sortBy es) (sortBy oes)
+          let l := lexLt (insertAll lt [] es) (insertAll (s.ltOf (nat d)) [] oes)
           ("ok", s!"{if eq then 1 else 0}{if l then 1 else 0}", none, s)
       | "iter", [] => ("ok", s!"{sz}={sz}", some 0, s)
       | "eloop", [k] =>
@@ -164,20 +182,20 @@ def setStep (s : SSt) (toks : List String) : String × String × Option Nat × S
           ("ok", "-", none, (putL r.1).put (nat d) ⟨[], r.2⟩)
       | "xfer", [d, v] => if c == nat d then skip else
           let ol := (s.get (nat d)).set
-          match (findC lt ol (nat v)).1 with
+          match (findC (s.ltOf (nat d)) ol (nat v)).1 with
           | none => ("ok", "absent", none, s)
           | some i =>
             let node := ol[i]?.getD 0
             let ol' := ol.eraseIdx i
             let r := insertVal lt l node
             if r.2.2 then ("ok", "1:empty", none, (putL r.1).put (nat d) ⟨[], ol'⟩)
-            else ("ok", s!"0:{node}", none, (putL r.1).put (nat d) ⟨[], (insertVal lt ol' node).1⟩)
+            else ("ok", s!"0:{node}", none, (putL r.1).put (nat d) ⟨[], (insertVal (s.ltOf (nat d)) ol' node).1⟩)
       | "extp", [p] => if sz == 0 then skip else
           let i := nat p % sz
           ("ok", valAt l i, some 0, putL (l.eraseIdx i))
-      | "swp", [d] => if c == nat d then skip else ("ok", "-", some 0, (s.put c (s.get (nat d))).put (nat d) x)
-      | "cpy", [d] => ("ok", "-", some 0, s.put c (s.get (nat d)))
-      | "mov", [d] => if c == nat d then skip else ("ok", "-", some 0, (s.put c (s.get (nat d))).put (nat d) ⟨[], []⟩)
+      | "swp", [d] => if c == nat d then skip else ("ok", "-", some 0, ((s.put c (s.get (nat d))).put (nat d) x).cmpSwap c (nat d))
+      | "cpy", [d] => ("ok", "-", some 0, (s.put c (s.get (nat d))).cmpFrom c (nat d))
+      | "mov", [d] => if c == nat d then skip else ("ok", "-", some 0, ((s.put c (s.get (nat d))).put (nat d) ⟨[], []⟩).cmpFrom c (nat d))
       | "cmp", [d] =>
           let ol := (s.get (nat d)).set
           ("ok", s!"{if l == ol then 1 else 0}{if lexLt l ol then 1 else 0}", some 0, s)
